@@ -25,3 +25,11 @@ Print Assumptions C16_aligned.
 Theorem C16_unaligned_refuted : exists P pid, 1024 <= P /\ P mod 8 <> 0 /\ (pid * P) mod 8 <> 0.
 Proof. exact unaligned_pagesize_refuted. Qed.
 Print Assumptions C16_unaligned_refuted.
+
+(* ---- strict mode: the library's own consistency check (DB::check, modelled by CheckM.check_m and compared with
+   the library's verdict on every snapshot) accepts every file the model's file checker accepts -- so switching
+   strict mode on can never turn a valid commit into an error. *)
+From Jamm Require Import Codec Tree CheckM CheckFacts.
+Theorem C16_strict_never_rejects_valid : forall rd P, inv_check rd P = Ok tt -> check_m rd P = Ok tt.
+Proof. exact inv_check_implies_check_m. Qed.
+Print Assumptions C16_strict_never_rejects_valid.
